@@ -145,7 +145,7 @@ impl Parser {
         let mut params = vec![];
         if !self.check(&RightParen) {
             loop {
-                if params.len() > 255 {
+                if params.len() >= 255 {
                     let _peeked = self.peek();
                     return Err(miette! {
                         "todo: params cannot exceed 255, why the f**k do you need so many?"
